@@ -925,12 +925,18 @@ func c15Attach(c *Ctx) {
 		if cs == nil || ss == nil {
 			c.Bad("R15.4", h.String(), "attach", h.Pos(), "expected stores to ce.Caller and ce.Stack")
 		} else {
+			// (the test that the core accepted the record at all - a nil test of a *CheckedEntry, however it was obtained -
+			// is not part of the threshold)
 			var atoms []string
-			for _, a := range AtomStrings(Guards(ss)) {
-				if !strings.HasPrefix(a, "Check(") {
-					atoms = append(atoms, a)
+			for _, ga := range Guards(ss) {
+				if bo, isBO := ga.Cond.(*ssa.BinOp); isBO && (IsNilConst(bo.X) || IsNilConst(bo.Y)) {
+					if strings.HasSuffix(TypeName(bo.X.Type()), "zapcore.CheckedEntry") || strings.HasSuffix(TypeName(bo.Y.Type()), "zapcore.CheckedEntry") {
+						continue
+					}
 				}
+				atoms = append(atoms, AtomStrings([]Atom{ga})...)
 			}
+			sort.Strings(atoms)
 			// a handler setting: a field of the handler, or of a settings struct it holds by value
 			hset := func(d, f string) bool {
 				return strings.HasPrefix(d, "h.") && (d == "h."+f || strings.HasSuffix(d, "."+f)) && !strings.ContainsAny(d, "()[ ")
